@@ -7,7 +7,10 @@
    over an abstract body type B (both are parameters of the Section below, the theorems in
    proofs/TlsRecordProofs.v state their hypotheses explicitly).  What the model keeps from the code is
    everything around it: which header fields and which sequence number enter the check, record
-   framing, the order of the checks in readRecord, error stickiness, what is delivered to Read.
+   framing, the order of the checks in readRecord, error stickiness, what is delivered to Read, and for
+   CBC the version-dependent padding rule.  The theorems only need seal/open to bind the sequence
+   number and the record type: the SSLv3 MAC (ssl30MAC) does not cover the version bytes of the header,
+   it is readRecord's own comparison with c.vers that rejects a changed version.
 
    A record on the wire is described by its header fields, the number of body bytes actually present
    ("actual") next to the length the header claims ("claim"), and its body: Some b when the bytes are
@@ -25,7 +28,11 @@ Record cfg := mkCfg {
   c_bs   : Z;   (* CBC block size *)
   c_expl : Z;   (* explicit IV (CBC, >= TLS 1.1) / explicit nonce (GCM: 8, ChaCha20: 0) *)
   c_ovh  : Z;   (* AEAD Overhead() *)
-  c_vers : Z }. (* c.vers *)
+  c_vers : Z;   (* c.vers *)
+  c_pad  : Z;   (* CBC padding style of the sending peer: 0 = bfe_tls's own encrypt (minimal, all bytes = length);
+                   1 = SSLv3 style (minimal, arbitrary content, last byte = length); 2 = TLS long padding
+                   (c_padx extra blocks, all bytes = length); 3 = length byte 255 (malformed) *)
+  c_padx : Z }.
 
 Definition maxPlaintext : Z := 16384.
 Definition maxCiphertext : Z := 16384 + 2048.
@@ -35,11 +42,31 @@ Definition typApp : Z := 23.
 
 Definition round_up (a b : Z) : Z := a + (b - a mod b) mod b.      (* conn.go roundUp *)
 
+(* CBC padding bytes (incl. the final length byte) that the sending peer appends to an m-byte plaintext
+   plus MAC.  padToBlockSize: bs - len mod bs bytes, each = that count - 1. *)
+Fixpoint pad_pattern (n : nat) (i : Z) : list Z :=
+  match n with O => [] | S n' => ((37 * i + 11) mod 256) :: pad_pattern n' (i + 1) end.
+Definition sender_pad (c : cfg) (m : Z) : list Z :=
+  let base := c_bs c - (m + c_mac c) mod c_bs c in
+  if c_pad c =? 0 then repeat (base - 1) (Z.to_nat base)
+  else if c_pad c =? 1 then pad_pattern (Z.to_nat (base - 1)) 0 ++ [base - 1]
+  else if c_pad c =? 2 then let n := base + c_bs c * c_padx c in repeat (n - 1) (Z.to_nat n)
+  else pad_pattern (Z.to_nat (base - 1)) 0 ++ [255].
+
 (* length of the record body that encrypt produces for an m-byte plaintext *)
 Definition wire_len (c : cfg) (m : Z) : Z :=
   if c_kind c =? 0 then m + c_mac c
-  else if c_kind c =? 1 then c_expl c + round_up (m + c_mac c + 1) (c_bs c)
+  else if c_kind c =? 1 then c_expl c + m + c_mac c + blen (sender_pad c m)
   else c_expl c + m + c_ovh c.
+
+(* halfConn.decrypt, CBC case: hc.version == VersionSSL30 selects removePaddingSSL30 (only the length byte
+   is looked at), every other version removePadding (all padding bytes must equal the length byte; C43).
+   A padding whose length byte does not match the real padding length moves the MAC window, so the MAC
+   comparison fails: the record is accepted only if the length byte is exact and, except for SSLv3, the
+   content is uniform. *)
+Definition pad_accept (vers : Z) (pad : list Z) : bool :=
+  let l := last pad (-1) in
+  (l + 1 =? blen pad) && ((vers =? 768) || forallb (Z.eqb l) pad).
 
 (* ---- sending side ---- *)
 (* writeRecord: split into pieces of at most initPlaintext bytes; no record for empty data *)
@@ -95,7 +122,12 @@ Section AE.
             (negb (n mod c_bs c =? 0) || (n <? round_up (c_expl c + c_mac c + 1) (c_bs c))) then None
     else match body_seen r with
          | None => None
-         | Some b => open seq (r_typ r) (r_vers r) b
+         | Some b =>
+           match open seq (r_typ r) (r_vers r) b with
+           | None => None
+           | Some p =>
+             if (c_kind c =? 1) && negb (pad_accept (c_vers c) (sender_pad c (blen p))) then None else Some p
+           end
          end.
 
   (* readRecord carries on after a failed decrypt with b.off = 0: the later checks can replace the
@@ -205,7 +237,8 @@ End AE.
 (* ---- the free (Dolev-Yao) instance used for the executable model: a sealed body is the term itself ---- *)
 Inductive sbody := Sealed (k t v : Z) (p : list Z).
 Definition sopen (seq t v : Z) (b : sbody) : option (list Z) :=
-  match b with Sealed k t' v' p => if (k =? seq) && (t' =? t) && (v' =? v) then Some p else None end.
+  (* the version is covered by the MAC / additional data except by the SSLv3 MAC *)
+  match b with Sealed k t' v' p => if (k =? seq) && (t' =? t) && ((v' =? v) || (v =? 768)) then Some p else None end.
 Definition sbody_eqb (a b : sbody) : bool :=
   match a, b with Sealed k t v p, Sealed k' t' v' p' => (k =? k') && (t =? t') && (v =? v') && list_Z_eqb p p' end.
 Definition srec_eqb (a b : srec sbody) : bool :=
@@ -230,4 +263,4 @@ Definition sent_bytes (writes : list (list Z)) : list Z := concat writes.
 (* well-formed suite shape (what VerifC42Params can return) *)
 Definition wf_cfg (c : cfg) : bool :=
   (0 <=? c_kind c) && (c_kind c <=? 2) && (0 <=? c_mac c) && (0 <=? c_expl c) && (0 <=? c_ovh c) &&
-  ((negb (c_kind c =? 1)) || (0 <? c_bs c)).
+  ((negb (c_kind c =? 1)) || (0 <? c_bs c)) && (0 <=? c_pad c) && (0 <=? c_padx c).
